@@ -3,7 +3,7 @@ From the decidable `WF.roundTripOk` (discharged for the generated schema by kern
 `OfxProofs/Gen/WF.lean`) to the propositional `Agg.ClsWF` the round-trip theorem uses.
 -/
 import OfxModel.Ofx.WF
-import OfxProofs.Lemmas.AggRound
+import OfxProofs.Lemmas.Groom
 
 namespace Ofx.WF
 open Ofx Ofx.Agg
@@ -26,8 +26,8 @@ theorem enumRefOk_enumOk (enums : List (List Str)) : ∀ k, enumRefOk enums k = 
 
 theorem roundTripOk_clsWF (S : Schema) (c : Cls) (h : roundTripOk S c = true) : ClsWF S c := by
   simp only [roundTripOk, Bool.and_eq_true] at h
-  obtain ⟨⟨⟨⟨hnd, henum⟩, hname⟩, hsub⟩, hlb⟩ := h
-  refine ⟨by simpa [namesOf] using of_decide_eq_true hnd, ?_, ?_, ?_, ?_⟩
+  obtain ⟨⟨⟨⟨⟨hels, hnd⟩, henum⟩, hname⟩, hsub⟩, hlb⟩ := h
+  refine ⟨by simpa [namesOf] using of_decide_eq_true hnd, ?_, ?_, ?_, ?_, ?_⟩
   · intro a ha
     have := (List.all_eq_true.mp hname) a ha
     simp only [Bool.and_eq_true, beq_iff_eq, Bool.not_eq_true', List.contains_eq_mem,
@@ -63,5 +63,43 @@ theorem roundTripOk_clsWF (S : Schema) (c : Cls) (h : roundTripOk S c = true) : 
     simp only [he, hany, Bool.not_true, Bool.false_or] at hJ
     have := (List.all_eq_true.mp hJ) q (by simpa using hqn)
     simpa [isListAt, hq, hql] using this
+  · intro hel
+    rw [hel] at hels
+    simp only [Bool.not_true, Bool.false_or, elShapeOk, Bool.and_eq_true] at hels
+    obtain ⟨hshape, hall⟩ := hels
+    cases hf : c.spec.filter (fun a => a.kind.isListElem) with
+    | nil => simp [hf] at hshape
+    | cons a rest =>
+      cases rest with
+      | cons b r => simp [hf] at hshape
+      | nil =>
+        cases hk : a.kind with
+        | listElem inner ireq =>
+          refine ⟨a, inner, ireq, rfl, hk, ?_⟩
+          intro b hb hbl
+          have hb2 := (List.all_eq_true.mp hall) b hb
+          simp only [hbl, Bool.not_true, Bool.false_or] at hb2
+          have : b ∈ c.spec.filter (fun a => a.kind.isListElem) := List.mem_filter.mpr ⟨hb, hb2⟩
+          rw [hf] at this
+          simpa using this
+        | _ => simp [hf, hk] at hshape
+
+theorem groomOkB_groomOk (c : Cls) (h : groomOkB c = true) : GroomOk c := by
+  unfold groomOkB at h
+  cases hg : c.groom with
+  | none =>
+    cases hu : c.ungroom with
+    | none => exact Or.inl ⟨hg, hu⟩
+    | some u => rw [hg, hu] at h; cases h
+  | some r =>
+    cases hu : c.ungroom with
+    | none => rw [hg, hu] at h; cases h
+    | some u =>
+      rw [hg, hu] at h
+      simp only [Bool.and_eq_true, beq_iff_eq, Bool.not_eq_true', List.any_eq_true] at h
+      obtain ⟨⟨⟨⟨h1, h2⟩, h3⟩, h4⟩, a, ha, hprop⟩ := h
+      obtain ⟨⟨hn, hl⟩, hs⟩ := hprop
+      refine Or.inr ⟨r, u, hg, hu, h1, h2, by simpa using h3, by simpa using h4, a, ha, hn, hl, ?_⟩
+      cases hk : a.kind <;> simp_all [Kind.subTarget]
 
 end Ofx.WF
